@@ -399,16 +399,31 @@ theorem typeEntryAt_len {payload : Bytes} {base : Nat} {prev : Option UInt32} {o
     · cases h
     · split at h
       · cases h
-      · next entry left heq =>
-        split at h
+      · split at h
         · cases h
-        · next hl =>
-          simp only [Except.ok.injEq] at h
-          subst h
-          have := lenExact_typeEntry _ _ _ heq
-          simp only [List.length_take, List.length_drop] at this
-          have hl0 : left.length = 0 := by simpa using hl
-          omega
+        · next entry left heq =>
+          split at h
+          · cases h
+          · next hl =>
+            simp only [Except.ok.injEq] at h
+            subst h
+            have := lenExact_typeEntry _ _ _ heq
+            simp only [List.length_take, List.length_drop] at this
+            have hl0 : left.length = 0 := by simpa using hl
+            omega
+
+/-- the first entry of a type table starts right behind the offset table (e5dfde6) -/
+theorem typeEntryAt_first {payload : Bytes} {base : Nat} {offset next : Nat} {e : TypeEntry}
+    (h : typeEntryAt payload base none offset next = .ok e) : offset = base := by
+  unfold typeEntryAt at h
+  split at h
+  · cases h
+  · split at h
+    · cases h
+    · next hf =>
+      by_cases hb : offset = base
+      · exact hb
+      · exact absurd ⟨rfl, hb⟩ hf
 
 theorem decTypeEntriesAt_len (payload : Bytes) (base : Nat) :
     ∀ (offs : List UInt32) (prev : Option UInt32) (es : List TypeEntry),
